@@ -130,6 +130,47 @@ def later_packet_fails_case(packet, size, fail_at):
             "written_completely": fail_at > packets}
 
 
+def send_on_closed_socket_case():
+    """the receiver thread has closed the socket (the peer went away) but the protocol has not yet been told that the link is down:
+    a send issued in that window must come back with failure.  The window is forced by closing the socket object the way the
+    receiver thread does, on a real loopback connection."""
+    tcpmod.TcpConnection.select_timeout = 0.02
+    port = common.own_port(3)
+    settings = secsgem.hsms.HsmsSettings(address="127.0.0.1", port=port, connect_mode=secsgem.hsms.HsmsConnectMode.PASSIVE, device_id=0)
+    proto = secsgem.hsms.HsmsProtocol(settings)
+    obs = {}
+    proto.enable()
+    try:
+        deadline = time.monotonic() + 20
+        while True:
+            try:
+                sock = socket.create_connection(("127.0.0.1", port), timeout=2)
+                break
+            except OSError:
+                if time.monotonic() > deadline:
+                    raise
+                time.sleep(0.01)
+        deadline = time.monotonic() + 20
+        while proto.connection_state.current.value != 2 and time.monotonic() < deadline:
+            time.sleep(0.005)
+        from secsgem.hsms.header import HsmsHeader, HsmsSType
+        from secsgem.hsms.message import HsmsMessage
+        proto._connection._socket.close()
+        box = {}
+        th = threading.Thread(target=lambda: box.setdefault("r", proto.send_message(HsmsMessage(HsmsHeader(7, 0, 1, 1, False, 0, HsmsSType.DATA_MESSAGE), b"x" * 50))), daemon=True)
+        th.start()
+        th.join(8)
+        obs["send_returned"] = not th.is_alive()
+        obs["reported"] = box.get("r")
+        sock.close()
+    finally:
+        try:
+            common.with_deadline(proto.disable, 15.0)
+        except common.Wedged:
+            obs["disable_hung"] = True
+    return obs
+
+
 HOLD_BACK = 6000
 
 
@@ -322,6 +363,9 @@ def run(tier, replay=None):
         if obs["reported"] and not obs["identical"]:
             report.violation({"kind": "counterexample", "what": "send_data() reported success, the endpoint was closed, and the peer reading until EOF did not receive the bytes complete", **obs}, True, tag="tcp")
             break
+    closed_obs = common.guarded(send_on_closed_socket_case, "send_message right after the socket was closed", twedged, 60.0)
+    if closed_obs is not None and not (closed_obs.get("send_returned") and closed_obs.get("reported") is False):
+        report.violation({"kind": "counterexample", "what": "a send on a connection whose socket had just been closed did not come back with failure", **closed_obs}, True, tag="closedsocket")
     # a later packet of a frame is not written: the call reports failure
     later = []
     for packet, size, fail_at in ([(8, 20, 2), (8, 20, 5), (16, 100, 3), (8, 20, 6)] if tier == "quick" else [(p, sz, f) for p in (4, 8, 16) for sz in (0, 20, 100) for f in (1, 2, 3, 5, 9, 40)]):
@@ -360,6 +404,7 @@ def run(tier, replay=None):
                    "buffers: 1 byte to 4 MiB, receiver reading at once, after a delay, or in 512-byte reads; received bytes compared with what was sent")
     cov["correspondence"] = {k2: v for k2, v in stats.items() if k2 != "eval_errors"}
     cov["later_packet_fails"] = later
+    cov["send_on_closed_socket"] = closed_obs
     cov["loopback"] = [{k2: o.get(k2) for k2 in ("size", "pacing", "closed_right_after_send", "reported", "identical", "received", "send_seconds")} for o in rounds]
     cov["distribution"] = {"data_sizes": dict(Counter(len(c[1]) for c in cases)), "script_lengths": dict(Counter(len(c[0]) for c in cases))}
     cov["samples"] = [f"{c[0]} / {len(c[1])} bytes" for c in cases[:: max(1, len(cases) // 5)][:5]]
